@@ -32,12 +32,13 @@ Fn(x)  == [k |-> "fn", n |-> x]         \* a script function returning x
 NewCtx(lim) == [globals |-> [nm \in Names |-> Absent],
                 touched |-> [j \in 1..NT |-> 0],
                 limits  |-> lim,
-                ptr     |-> FALSE]
+                ptr     |-> FALSE,         \* the current-VM pointer designates a running evaluation
+                depth   |-> 0]             \* evaluations of this context in progress (an exposed callable may re-enter)
 Core(cs) == [globals |-> cs.globals, touched |-> cs.touched]    \* everything that may carry over
 
 EvalKinds == {"defvar", "deffun", "assign", "delete",
               "mut_objproto", "mut_math", "mut_arrproto", "mut_strctor", "mut_errproto",
-              "throw", "loop", "recurse", "syntax", "ieval", "ieval_loop", "newfn", "read"}
+              "throw", "loop", "recurse", "syntax", "ieval", "ieval_loop", "newfn", "read", "reenter"}
 HostKinds == {"set", "get"}
 Kinds == EvalKinds \cup HostKinds
 MutKinds == {"mut_objproto", "mut_math", "mut_arrproto", "mut_strctor", "mut_errproto"}
@@ -47,9 +48,15 @@ MutTarget(kd) == CASE kd = "mut_objproto" -> 1 [] kd = "mut_math" -> 2 [] kd = "
 \* effects
 EGlob(nm, av) == [e |-> "glob", nm |-> nm, av |-> av, tj |-> 0, tv |-> 0]
 ETouch(j, x)  == [e |-> "touch", nm |-> "", av |-> Absent, tj |-> j, tv |-> x]
+\* an exposed callable calls Context.eval again: a second evaluation of the same context starts and ends
+\* inside the first one; when it ends the pointer designates the evaluation still in progress again
+EEnter == [e |-> "enter", nm |-> "", av |-> Absent, tj |-> 0, tv |-> 0]
+ELeave == [e |-> "leave", nm |-> "", av |-> Absent, tj |-> 0, tv |-> 0]
 ApplyEff(cs, ef) ==
-  IF ef.e = "glob" THEN [cs EXCEPT !.globals[ef.nm] = ef.av]
-  ELSE [cs EXCEPT !.touched[ef.tj] = ef.tv]
+  CASE ef.e = "glob"  -> [cs EXCEPT !.globals[ef.nm] = ef.av]
+    [] ef.e = "touch" -> [cs EXCEPT !.touched[ef.tj] = ef.tv]
+    [] ef.e = "enter" -> [cs EXCEPT !.depth = cs.depth + 1, !.ptr = TRUE]
+    [] ef.e = "leave" -> [cs EXCEPT !.depth = cs.depth - 1, !.ptr = (cs.depth - 1 > 0)]
 RECURSIVE ApplyEffs(_, _)
 ApplyEffs(cs, efs) == IF efs = <<>> THEN cs ELSE ApplyEffs(ApplyEff(cs, Head(efs)), Tail(efs))
 
@@ -89,13 +96,17 @@ Prog(kd, x, cs) ==
        [] kd = "ieval_loop" -> P(<<EGlob("g", Num(x))>>, [os |-> {"timelimit", "jserror"}, r |-> DontCare])
        [] kd = "newfn"   -> P(<<>>, ReadG(cs))                                \* new Function("return g")()
        [] kd = "read"    -> P(<<>>, ReadG(cs))                                \* g
+       \* re(x); ptr()  where re is an exposed callable that evaluates "var g = x" on the same context and ptr
+       \* reports whether the current-VM pointer is set: it must be, the outer evaluation is still running
+       [] kd = "reenter" -> P(<<EEnter, EGlob("g", Num(x)), ELeave>>, val(1))
 
 \* atomic meaning of one event: post-state, acceptable outcome classes, result
 RunEvent(cs, kd, x) ==
   CASE kd = "set" -> [st |-> [cs EXCEPT !.globals["g"] = Num(x)], os |-> {"value"}, r |-> 0]
     [] kd = "get" -> [st |-> cs, os |-> {"value"}, r |-> IF cs.globals["g"].k = "num" THEN cs.globals["g"].n ELSE 0]
     [] OTHER -> LET p == Prog(kd, x, cs)
-                IN [st |-> [ApplyEffs(cs, p.eff) EXCEPT !.ptr = FALSE], os |-> p.exit.os, r |-> p.exit.r]
+                IN [st |-> [ApplyEffs([cs EXCEPT !.depth = 1, !.ptr = TRUE], p.eff) EXCEPT !.ptr = FALSE, !.depth = 0],
+                    os |-> p.exit.os, r |-> p.exit.r]
 
 \* the error-free twin of a kind: what a history without the error would have run instead
 TwinKind(kd) == CASE kd \in {"throw", "loop", "recurse"} -> "defvar"
@@ -159,7 +170,7 @@ Begin(c, kd, x) ==
      THEN /\ last' = "syntax" /\ evn' = evn + 1 /\ twin' = TwinStep(c, kd, x)
           /\ UNCHANGED <<ctx, pc>>
      ELSE /\ pc' = [m |-> "run", c |-> c, kind |-> kd, x |-> x, i |-> 1, start |-> ctx[c]]
-          /\ ctx' = [ctx EXCEPT ![c].ptr = TRUE]          \* self._current_vm = vm
+          /\ ctx' = [ctx EXCEPT ![c].ptr = TRUE, ![c].depth = 1]          \* self._current_vm = vm
           /\ UNCHANGED <<twin, evn, last>>
 \* ... the VM commits effects one at a time on the shared globals / built-in objects ...
 Effect ==
@@ -176,7 +187,7 @@ Exit ==
   /\ LET p == Prog(pc.kind, pc.x, pc.start)
      IN /\ pc.i > Len(p.eff)
         /\ \E o \in p.exit.os : last' = o
-  /\ ctx' = [ctx EXCEPT ![pc.c].ptr = FALSE]
+  /\ ctx' = [ctx EXCEPT ![pc.c].ptr = FALSE, ![pc.c].depth = 0]
   /\ twin' = TwinStep(pc.c, pc.kind, pc.x)
   /\ pc' = Idle /\ evn' = evn + 1 /\ actor' = pc.c
 
@@ -215,6 +226,8 @@ EvalNewFunction(c) == /\ pc.m = "idle"
                        /\ Begin(c, "newfn", 0)
 EvalRead(c) == /\ pc.m = "idle"
                 /\ Begin(c, "read", 0)
+EvalReenter(c) == /\ pc.m = "idle"
+                   /\ \E x \in Vals : Begin(c, "reenter", x)
 HostStep(c, kd, x) ==
   /\ pc.m = "idle" /\ kd \in MCKinds
   /\ ctx' = [ctx EXCEPT ![c] = RunEvent(ctx[c], kd, x).st]
@@ -230,7 +243,7 @@ Next == \/ Effect \/ Exit
              \/ EvalDefVar(c) \/ EvalDefFun(c) \/ EvalAssign(c) \/ EvalDelete(c)
              \/ EvalMutObjProto(c) \/ EvalMutMath(c) \/ EvalMutArrProto(c) \/ EvalMutStrCtor(c) \/ EvalMutErrProto(c)
              \/ EvalThrow(c) \/ EvalLoop(c) \/ EvalRecurse(c) \/ EvalSyntax(c)
-             \/ EvalIndirect(c) \/ EvalIndirectLoop(c) \/ EvalNewFunction(c) \/ EvalRead(c)
+             \/ EvalIndirect(c) \/ EvalIndirectLoop(c) \/ EvalNewFunction(c) \/ EvalRead(c) \/ EvalReenter(c)
              \/ Set(c) \/ Get(c)
 Spec == Init /\ [][Next]_cmvars
 Bound == evn < MAXN \/ (evn = MAXN /\ pc.m = "idle")      \* CONSTRAINT: all histories up to MAXN events
@@ -243,8 +256,9 @@ TypeOK ==
   /\ pc.m \in {"idle", "run"} /\ evn \in 0..(MAXN + 1) /\ actor \in 0..NC
 \* the current-VM pointer is clear after every exit (and belongs to the running eval only)
 PointerClear ==
-  /\ pc.m = "idle" => \A c \in Ctxs : ~ctx[c].ptr
-  /\ pc.m = "run" => \A c \in Ctxs : ctx[c].ptr <=> c = pc.c
+  /\ pc.m = "idle" => \A c \in Ctxs : ~ctx[c].ptr /\ ctx[c].depth = 0
+  /\ pc.m = "run" => \A c \in Ctxs : /\ (ctx[c].ptr <=> c = pc.c)           \* also between a nested exit and the outer one
+                                       /\ (ctx[c].depth >= 1 <=> c = pc.c)
 \* recovery: whatever errors the history contained, every context is in the state of its error-free twin,
 \* so every later event (guard, effects, outcome, result, projection) is the same as without the error
 Recovery == pc.m = "idle" => \A c \in Ctxs : ctx[c] = twin[c]
@@ -259,6 +273,8 @@ RecoveryBehaviour ==
 Frame == [][\A c \in Ctxs : c # actor' => ctx'[c] = ctx[c]]_cmvars
 \* effects committed before the exit persist: leaving (with a value or an error) only clears the pointer
 EffectsPersist == [][(pc.m = "run" /\ pc'.m = "idle") => Core(ctx'[pc.c]) = Core(ctx[pc.c])]_cmvars
+\* nothing but a running evaluation changes what may carry over, and only through the listed effects
+NestingBalanced == [][(pc.m = "run" /\ pc'.m = "idle") => ctx[pc.c].depth = 1]_cmvars
 \* the sub-steps of an eval add up to the atomic meaning the trace specification uses
 AtomicAgrees == [][(pc.m = "run" /\ pc'.m = "idle") => ctx'[pc.c] = RunEvent(pc.start, pc.kind, pc.x).st]_cmvars
 \* a syntax error has no effect at all
